@@ -37,7 +37,9 @@ def banners(tier):
             vs |= set(around(v))
         vs = sorted(vs)
         if tier == 'quick':
-            vs = [v for i, v in enumerate(vs) if i % 3 == 0] + EXTRA[prod][:2]
+            # every version the database names and the one just below it (the two sides of each availability boundary); of the rest every third
+            below = set(x for v in vers for x in around(v) if numcmp(x, v) <= 0)
+            vs = sorted(below | set(v for i, v in enumerate(vs) if i % 3 == 0)) + EXTRA[prod][:2]
         for v in sorted(set(vs)):
             out.append((prod, v, (FMT[prod] % v).encode()))
     # vendor builds: a suffix after the version does not make the software older than the release it is built from
